@@ -1,6 +1,6 @@
 """C03: every transmitted command is a well-formed HEX frame."""
 import os, re
-from lib import common
+from lib import common, script
 from lib.common import Broken
 
 THEOREMS = ["C03_wellformed", "C03_wellformed_any_payload", "C03_get_payload", "C03_no_payload"]
@@ -44,6 +44,18 @@ def run(res, args):
             res.add_violation("transmitted frame violates the frame grammar / checksum / payload rule",
                               key="C03:%s:%s:%s" % (f[1], f[2], f[3]),
                               input={"entry": f[1], "cmd": int(f[2]), "addr": int(f[3])}, observed=l)
+    # frames written under write/read/flush faults and over retries: the scripted-port corpus
+    try:
+        r = script.run_corpus(res.tier, res.seed)
+        app, nf = r["summ"].get("C03", (0, 0))
+        res.cov["fault_history_frames_judged"] = app
+        res.cov["fault_history_judge_failures"] = nf
+        for f in r["fails"].get("C03", [])[:5]:
+            line = r["byid"].get(f["case_id"], "")
+            res.add_violation(f["what"], key="C03:script:" + re.sub(r"^\S+ ", "", line)[:160], input=line,
+                              observed=r["implby"].get(f["case_id"], ""))
+    except script.HangFound as h:
+        res.broken.append(Broken("the implementation hangs on a generated case; see C06", h.line))
     if mism and not bad:
         first = [l for l in out.splitlines() if l.startswith("MISMATCH")][:5]
         res.broken.append(Broken("correspondence tx_frame (model) vs frames written by the driver: %d disagreements" % mism,
